@@ -14,7 +14,9 @@ CONSTANT Enforce
 
 Files == {"secret", "base/a", "base/a.gz", "base/b", "base/sub/a", "base/sub/c.gz", "base/...", "base/..a",
           "base/a..", "base/.gz", "base/sub/.gz", "base/....gz", "base/b.gz/x", "base/sub/...",
-          "base/sub/a...gz", "base/a...gz", "base/a.gz.gz", "base/sub/c.gz.gz"}
+          "base/sub/a...gz", "base/a...gz", "base/a.gz.gz", "base/sub/c.gz.gz",
+          "base/dev", "base/dev.gz"}            \* (dev.gz: a symbolic link to /dev/null -- exists, no directory, no regular file)
+Special == {"base/dev.gz"}
 Dirs == {"", "base", "base/sub", "base/b.gz"}
 Nodes == Files \cup Dirs
 Parent == [d \in Dirs |-> CASE d = "" -> "" [] d = "base" -> "" [] OTHER -> "base"]
@@ -66,7 +68,7 @@ C19_OK(e) ==
         \/ (~(e.auto /\ sib /\ prefer = {TRUE}) /\ asPlain)
      /\ (e.res.k = "node") => /\ e.res.name \in Inside
                               \* as an entity: refused exactly for non-regular nodes, length = file size
-                              /\ e.res.ent_ok = ~e.res.dir
+                              /\ e.res.ent_ok = e.res.reg
                               /\ e.res.ent_ok => e.res.ent_len = e.res.size
                               /\ (e.res.vary = "accept-encoding") <=> e.auto
                               /\ e.res.vary \in {"", "accept-encoding"}
